@@ -385,3 +385,35 @@ func make255() []byte {
 	}
 	return b
 }
+
+// roamCases: every history of the client's address family up to length 3 for both loops of the session relay,
+// the NAT relay as the non-roaming control, plus random longer histories and other MTUs.
+func roamCases(r *common.Rng, o *common.Options) []Case {
+	var cs []Case
+	seed := uint64(5000)
+	add := func(s, batch, hist string, mtu int) {
+		seed++
+		cs = append(cs, Case{Kind: "roam", S: s, Batch: batch, Hist: hist, MTU: mtu, Seed: seed + r.U64()%1000*7919})
+	}
+	hists := []string{"46", "64", "464", "646", "446", "466"}
+	for _, batch := range []string{"no", ""} {
+		for _, h := range hists {
+			add("ss", batch, h, 1500)
+		}
+		add("none", batch, "46", 1500)
+	}
+	n := o.Budget(4, 120)
+	for i := 0; i < n; i++ {
+		ln := r.Range(2, 6)
+		h := make([]byte, ln)
+		for j := range h {
+			h[j] = "46"[r.Intn(2)]
+		}
+		s := "ss"
+		if r.Intn(5) == 0 {
+			s = "none"
+		}
+		add(s, common.Pick(r, []string{"no", ""}), string(h), common.Pick(r, []int{1280, 1492, 1500, 9000}))
+	}
+	return cs
+}
